@@ -1,4 +1,6 @@
 import ClusterVerif.Lemmas.C02
+import ClusterVerif.Model.C02Source
+import ClusterVerif.Gen.C02
 
 /-!
 # C02 — CRDT: replicas converge; batching neither loses nor reorders operations
@@ -362,5 +364,17 @@ example : let t : Trust := ⟨2, false, [0]⟩
     t.isTrusted 0 = true ∧ t.isTrusted 1 = false ∧
     (deliver t {} [1] ⟨0, [witA]⟩).viewAt 0 = some 9 ∧ (deliver ⟨2, false, [1]⟩ {} [1] ⟨0, [witA]⟩).viewAt 0 = none := by
   decide
+
+/-! ### The anchored functions still read as the model was transcribed (regenerated from /repo on every run) -/
+
+theorem gen_source_setup : Gen.setup = Expected.setup := rfl
+theorem gen_source_isTrustedPeer : Gen.isTrustedPeer = Expected.isTrustedPeer := rfl
+theorem gen_source_trust : Gen.trust = Expected.trust := rfl
+theorem gen_source_distrust : Gen.distrust = Expected.distrust := rfl
+theorem gen_source_logPin : Gen.logPin = Expected.logPin := rfl
+theorem gen_source_logUnpin : Gen.logUnpin = Expected.logUnpin := rfl
+theorem gen_source_batchWorker : Gen.batchWorker = Expected.batchWorker := rfl
+theorem gen_source_stateFn : Gen.stateFn = Expected.stateFn := rfl
+
 
 end CV.C02
